@@ -28,4 +28,46 @@ def handlePSleep : List String → Option String
     pure (",".intercalate (go (PSleep.new d) ops []))
   | _ => none
 
+/-- one stopwatch operation as the harness recorded it: its kind (`n` new, `p` pause, `r` resume, `s` snapshot), the harness's
+    own clock (µs) just before and just after the call, and for a snapshot the `active` value (µs) the implementation returned -/
+def parseWatchRec (s : String) : Option (Char × Nat × Nat × Nat) :=
+  match s.toList with
+  | k :: rest =>
+    match (String.ofList rest).splitOn ":" with
+    | [b, a] => do pure (k, ← b.toNat?, ← a.toNat?, 0)
+    | [b, a, v] => do pure (k, ← b.toNat?, ← a.toNat?, ← v.toNat?)
+    | _ => none
+  | _ => none
+
+/-- `swatch <rec,rec,…>` → for every snapshot `in` when the value lies between what `Model/Unit.Watch` gives for the shortest and
+    for the longest times compatible with the recorded clock readings (each operation happened somewhere between its two
+    readings; 2 µs per operation for the truncation to µs; a snapshot of a paused watch reads the clock twice, which can only
+    lower it, by at most the width of its own bracket), otherwise `out:<lo>:<hi>`; `panic` on an illegal transition -/
+def handleSWatch : List String → Option String
+  | [recs] => do
+    let rs ← mapOpt parseWatchRec (splitList recs ",")
+    let rec go (lo hi : Watch) (pb pa k : Nat) (rs : List (Char × Nat × Nat × Nat)) (acc : List String) : List String :=
+      match rs with
+      | [] => acc.reverse
+      | (c, b, a, v) :: rest =>
+        let lo1 := lo.tick (b - pa)
+        let hi1 := hi.tick (a - pb)
+        let k := k + 1
+        if c == 'p' then
+          match lo1.apply .pause, hi1.apply .pause with
+          | some l, some h => go l h b a k rest acc
+          | _, _ => ("panic" :: acc).reverse
+        else if c == 'r' then
+          match lo1.apply .resume, hi1.apply .resume with
+          | some l, some h => go l h b a k rest acc
+          | _, _ => ("panic" :: acc).reverse
+        else
+          let low := lo1.active - 2 * k - (if lo1.paused then a - b else 0)
+          let high := hi1.active + 2 * k
+          go lo1 hi1 b a k rest ((if low ≤ v && v ≤ high then "in" else s!"out:{low}:{high}") :: acc)
+    match rs with
+    | ('n', b, a, _) :: rest => pure (",".intercalate (go {} {} b a 0 rest []))
+    | _ => none
+  | _ => none
+
 end Driver
